@@ -80,9 +80,40 @@ theorem jsxMemberToExpr_rel_aux (n : Nat) : ∀ a b, sizeOf a ≤ n → HintRel 
 theorem jsxMemberToExpr_rel {a b : Node} (h : HintRel a b) : HintRel (jsxMemberToExpr a) (jsxMemberToExpr b) :=
   jsxMemberToExpr_rel_aux (sizeOf a) a b (Nat.le_refl _) h
 
+theorem memberRoot_rel_aux (n : Nat) : ∀ a b, sizeOf a ≤ n → HintRel a b → memberRoot a = memberRoot b := by
+  induction n with
+  | zero => intro a b hs; cases a; simp at hs
+  | succ n ih =>
+    intro a b hs h
+    cases h with
+    | vnode => simp [memberRoot]
+    | node k as hl =>
+      cases k <;> try (simp [memberRoot]; done)
+      rcases hl with _ | ⟨h1, _ | ⟨h2, _ | ⟨h3, hl⟩⟩⟩
+      · rfl
+      · simp [memberRoot]
+      · have ihobj := ih _ _ (by simp at hs ⊢; omega) h1
+        cases h1 with
+        | vnode => simpa [memberRoot] using ihobj
+        | node k2 as2 hl2 =>
+          cases k2 <;> try (simpa [memberRoot] using ihobj)
+          rcases as2 with _ | ⟨a, r⟩ <;> simp [memberRoot]
+      · simp [memberRoot]
+
+theorem memberRootCheck_sim {a b : Node} (h : HintRel a b) {s1 s2 : St} (hs : StSim s1 s2) :
+    StSim (memberRootCheck a s1) (memberRootCheck b s2) := by
+  unfold memberRootCheck
+  rw [memberRoot_rel_aux (sizeOf a) a b (Nat.le_refl _) h]
+  split
+  · split
+    · exact hs.err _
+    · exact hs
+  · exact hs
+
 theorem transformTag_rel (env : Env) {n1 n2 : Node} (hn : HintRel n1 n2) {s1 s2 : St} (hs : StSim s1 s2) :
     HintRel (transformTag env n1 s1).1 (transformTag env n2 s2).1 ∧ StSim (transformTag env n1 s1).2 (transformTag env n2 s2).2 := by
   have hj := jsxMemberToExpr_rel hn
+  have hm := memberRootCheck_sim hn hs
   cases hn with
   | vnode => exact ⟨by simpa [transformTag] using HintRel.vnode _ _ _ _ _ ‹_› ‹_› ‹_› ‹_›, by simpa [transformTag] using hs⟩
   | node k as hl =>
@@ -109,7 +140,7 @@ theorem transformTag_rel (env : Env) {n1 n2 : Node} (hn : HintRel n1 n2) {s1 s2 
                 exact ⟨HintRel.refl _, i2⟩
               · exact ⟨HintRel.refl _, hs⟩
     · -- jsxMember
-      exact ⟨by simpa [transformTag] using hj, by simpa [transformTag] using hs⟩
+      exact ⟨by simpa [transformTag] using hj, by simpa [transformTag] using hm⟩
     · -- jsxNsName
       rcases hl with _ | ⟨h1, _ | ⟨h2, _ | ⟨h3, hl⟩⟩⟩
       · exact ⟨by simpa [transformTag] using HintRel.refl _, by simpa [transformTag] using hs⟩
